@@ -142,9 +142,11 @@ type Client struct {
 func NewClient(c *Chain, s *act.Sched, comp string) *Client { return &Client{C: c, S: s, Comp: comp} }
 
 func (cl *Client) gate(ctx context.Context, op, arg string, info any) error {
-	d := cl.S.EnterCtx(ctx, cl.Comp, op, arg, info)
-	if d.Err != nil {
-		return d.Err
+	if cl.S != nil { // a client without a scheduler answers at once (its calls are not scheduling points)
+		d := cl.S.EnterCtx(ctx, cl.Comp, op, arg, info)
+		if d.Err != nil {
+			return d.Err
+		}
 	}
 	if ctx != nil && ctx.Err() != nil {
 		return ctx.Err()
